@@ -62,9 +62,9 @@ var authzOps = map[string][]string{
 
 // frozen exemptions of the dominance rule: construct -> reason.
 var c31Exempt = map[string]string{
-	"(*Server).makeExistingObjectTagsResolver$1 → Storage.GetObjectTagging": "lazy tag resolver handed to the authorizer itself (s3:ExistingObjectTag); it runs inside AuthorizeRequest, its result goes only to the policy, never to the response",
+	"(*Server).makeExistingObjectTagsResolver$1 → Storage.GetObjectTagging":     "lazy tag resolver handed to the authorizer itself (s3:ExistingObjectTag); it runs inside AuthorizeRequest, its result goes only to the policy, never to the response",
 	"(*Server).resolveCORSRulesForRequest → Storage.GetBucketCORSConfiguration": "CORS rule resolver of the CORS middleware: reads bucket CORS rules to decide response headers for any origin-bearing request; by design not subject to the authorizer (C34 governs what it may emit)",
-	"(*Server).websitePrepare → Storage.GetBucketWebsiteConfiguration": "read before authorization only to resolve the index-document key that is then authorized; nothing is written to the response before the authorizer ran (errors are revealed only after the allow edge)",
+	"(*Server).websitePrepare → Storage.GetBucketWebsiteConfiguration":          "read before authorization only to resolve the index-document key that is then authorized; nothing is written to the response before the authorizer ran (errors are revealed only after the allow edge)",
 }
 
 type authEngine struct {
@@ -767,7 +767,9 @@ func checkC31Routes(w *World, r *Run, rule string, e *authEngine) {
 		r.Anchor(rule, "server.SetupServer")
 		return
 	}
-	for _, c := range callsTo(setup, false, func(f *types.Func) bool { return f.Name() == "HandleFunc" && f.Pkg() != nil && f.Pkg().Path() == "net/http" }) {
+	for _, c := range callsTo(setup, false, func(f *types.Func) bool {
+		return f.Name() == "HandleFunc" && f.Pkg() != nil && f.Pkg().Path() == "net/http"
+	}) {
 		args := c.Common().Args // mux, pattern, handler
 		pat, _ := constString(args[1])
 		cons := "route " + pat
